@@ -271,8 +271,11 @@ func cmdCheck(args []string) int {
 	defer os.RemoveAll(dir)
 	so := SolveOpts{Dir: dir, Stage1: time.Second, Stage2: 20 * time.Second}
 	if *tier == "thorough" {
+		// every query goes to all three solvers (10 s each) and the answers are
+		// cross-checked; a query no solver decides in that time is decided again by
+		// the retry pass (race, 60 s)
 		so.All = true
-		so.Stage2 = 60 * time.Second
+		so.Stage2 = 10 * time.Second
 	}
 	ts := time.Now()
 	stats := solveAll(obls, so)
